@@ -113,7 +113,13 @@ func (d *deferError) Error() error {
 	select {
 	case d.err = <-d.errCh:
 	case <-d.ShutdownCh:
-		d.err = ErrRaftShutdown
+		// A response that was delivered before the shutdown wins: select
+		// picks at random when both channels are ready.
+		select {
+		case d.err = <-d.errCh:
+		default:
+			d.err = ErrRaftShutdown
+		}
 	}
 	return d.err
 }
